@@ -161,6 +161,10 @@ fn execute(
     while let Some((ev, fault)) = next(world, idx) {
         oracle.before(world, &ev);
         let t_ev = std::time::Instant::now();
+        if std::env::var("VERIF_ECHO").is_ok() {
+            // debugging aid for runs that never come back
+            eprintln!("event #{idx}: {}", serde_json::to_string(&ev).unwrap_or_default());
+        }
         let res = world.step(&ev);
         if slow_report() && t_ev.elapsed().as_millis() > 50 {
             eprintln!("slow event #{idx}: {} ms: {}", t_ev.elapsed().as_millis(), serde_json::to_string(&ev).unwrap_or_default());
